@@ -495,7 +495,7 @@ func (c *FnCtx) assumeWellTyped(st *State, v Val) {
 			}
 		}
 	case kSlice:
-		c.assume(st, and(sx("<=", "0", v.Off), sx("<=", "0", v.Len), sx("<=", v.Len, v.Cap), sx("<=", v.Cap, "281474976710656"), sx("<", v.Ref, st.wm)))
+		c.assume(st, and(sx("<=", "0", v.Off), sx("<=", add(v.Off, v.Cap), "281474976710656"), sx("<=", "0", v.Len), sx("<=", v.Len, v.Cap), sx("<", v.Ref, st.wm), implies(eq(v.Ref, "0"), eq(v.Cap, "0"))))
 		if c.eng.usesAddr || c.fn.Pkg != nil && strings.HasSuffix(c.fn.Pkg.Pkg.Path(), "internal/alias") {
 			esz := int64(1)
 			if v.Root != nil && kindOf(v.Root) != kStruct {
